@@ -134,4 +134,36 @@ SignerRule(Certs, chains, keys, latest, pred, hasPred, now, s) ==
                               Min2(Min2(Min2(e, latest.nb + latest.grace), pred.na), latest.na)}
               THEN "grace-expiry-not-min-of-chain-grace-end-predecessor"
          ELSE ""
+-----------------------------------------------------------------------------
+(* C37: certificate renewal requests.  A request is
+     [chain, sis, csr]   chain: the certificates included in the CMS message (sequence of ids)
+                         sis:   signer infos [sid, key, pl]: sid = certificate named by the signer
+                                identifier, key = certificate whose private key made the signature,
+                                pl = "csr" if the signature covers the request, else something else
+                         csr:   [ia, selfsig]: subject ISD-AS (0 = none) and whether the request's own
+                                signature is valid
+   From the statement: single signer whose certificate is the AS certificate of the included chain,
+   the chain verifies against the valid latest TRC (or its predecessor during the grace period), the
+   signature covers the request, the subject ISD-AS equals the chain's, the request's signature is valid. *)
+NormChain(Certs, chain) ==
+    IF Len(chain) = 2 /\ Certs[chain[1]].kind = "ca" /\ Certs[chain[2]].kind = "as" THEN <<chain[2], chain[1]>> ELSE chain
+RenewRule(Certs, req, latest, pred, hasPred, now) ==
+    LET ch == NormChain(Certs, req.chain) IN
+    IF Len(req.sis) # 1 THEN "not-exactly-one-signer"
+    ELSE IF Len(ch) # 2 THEN "not-a-two-certificate-chain"
+    ELSE IF req.sis[1].sid # ch[1] THEN "signer-is-not-the-as-certificate"
+    ELSE IF ProviderRule(Certs, ch, latest, pred, hasPred, now) # "" THEN "chain:" \o ProviderRule(Certs, ch, latest, pred, hasPred, now)
+    ELSE IF req.sis[1].key # ch[1] THEN "signature-not-by-as-key"
+    ELSE IF req.sis[1].pl # "csr" THEN "signature-does-not-cover-request"
+    ELSE IF req.csr.ia # Certs[ch[1]].ia THEN "csr-subject-differs-from-chain"
+    ELSE IF ~req.csr.selfsig THEN "csr-signature-invalid"
+    ELSE ""
+
+(* issued chains: AS validity [asnb, asna] inside the CA's, requested key and subject *)
+IssueRule(ca, r) ==
+    IF ~(ca.nb <= r.asnb /\ r.asna <= ca.na) THEN "outlives-ca-certificate"
+    ELSE IF r.keyok = 0 THEN "other-key"
+    ELSE IF r.subjok = 0 THEN "other-subject"
+    ELSE IF r.typeok = 0 \/ r.sigok = 0 THEN "not-a-valid-chain"
+    ELSE ""
 =============================================================================
